@@ -9,6 +9,7 @@ names) decides: every SQLite disagreement is re-run on DuckDB and reported only 
 itself runs a fixed family of instances for every state."""
 from __future__ import annotations
 
+from vlib.paths import SQLGLOT
 import inspect
 import logging
 
@@ -69,7 +70,7 @@ def frame(exc):
     import traceback
 
     for fr in reversed(traceback.extract_tb(exc.__traceback__)):
-        if fr.filename.startswith("/repo/sqlglot"):
+        if fr.filename.startswith(SQLGLOT):
             return f"{fr.filename.rsplit('/', 1)[-1]}:{fr.name}"
     return "?"
 
